@@ -37,7 +37,8 @@ TECHNIQUE = ("Coq proof that the validation model accepts, in any arrival order 
              "real peer validators")
 LEVEL_TEXT = ("PARTIAL. Machine-checked: (a) the second sentence of the property for the consensus messages of three rounds of the "
               "protocol model - the fault-free first round, round 2 of the recovery from a silent first round, round 2 of the recovery "
-              "from a prepared first round (C07's theorems; C10_*_broadcasts: the messages are what the operators broadcast): wrapped as "
+              "from a prepared first round (C07's theorems; C10_*_broadcasts: the messages are what the operators broadcast), and the first "
+              "round together with the aggregated decided message (C10_fault_free_round_with_decided_is_accepted): wrapped as "
               "a peer receives them and run through the validation model's entry point from a validator in which every signer has no "
               "state or a state of an earlier round of the duty, every result is Accept - for every committee of distinct non-zero ids, "
               "quorum, height, leader, consensus role, both entry points, ANY arrival order, each message at most once, each validated at "
